@@ -247,3 +247,34 @@ def consumed_after_loop_obligations(model, rep, fn, clause, rule="S25"):
                    f"`{_ns(created_inside[0])[:70]}` re-creates `{name}` in every iteration: what earlier iterations collected is dropped (only the last component / group "
                    "contributes)" if created_inside else "", node=(created_inside[0] if created_inside else call), fn=fn, clause=clause)
     return n
+
+
+def ball_footprint(M, r="$r", radius="radius", binds=None):
+    """Is there a boolean array `sum_k offset_k**2 <= radius**2` over the integer offsets -r..r on three axes (a centred ball in a (2r+1)^3 box)?
+    The idioms by which numpy code builds such a footprint are enumerated: np.indices shifted by r, np.ogrid / np.mgrid over slice(-r, r+1),
+    one np.arange(-r, r+1) broadcast along the three axes.  Summand order is free."""
+    import itertools
+    b0 = dict(binds or {})
+    grids = [
+        ([f"$z, $y, $x = np.indices((2 * {r} + 1,) * 3)"], ("($z - {r}) ** 2", "($y - {r}) ** 2", "($x - {r}) ** 2")),
+        ([f"$z, $y, $x = np.indices((2 * {r} + 1, 2 * {r} + 1, 2 * {r} + 1))"], ("($z - {r}) ** 2", "($y - {r}) ** 2", "($x - {r}) ** 2")),
+        ([f"$z, $y, $x = np.ogrid[slice(-{r}, {r} + 1), slice(-{r}, {r} + 1), slice(-{r}, {r} + 1)]"], ("$z ** 2", "$y ** 2", "$x ** 2")),
+        ([f"$z, $y, $x = np.ogrid[-{r}:{r} + 1, -{r}:{r} + 1, -{r}:{r} + 1]"], ("$z ** 2", "$y ** 2", "$x ** 2")),
+        ([f"$z, $y, $x = np.mgrid[-{r}:{r} + 1, -{r}:{r} + 1, -{r}:{r} + 1]"], ("$z ** 2", "$y ** 2", "$x ** 2")),
+        ([f"$a = np.arange(-{r}, {r} + 1)"], ("$a[:, None, None] ** 2", "$a[None, :, None] ** 2", "$a[None, None, :] ** 2")),
+        ([f"$a = np.arange(-{r}, {r} + 1)"], ("$a[:, np.newaxis, np.newaxis] ** 2", "$a[np.newaxis, :, np.newaxis] ** 2", "$a[np.newaxis, np.newaxis, :] ** 2")),
+    ]
+    for pre, terms in grids:
+        for perm in itertools.permutations(terms):
+            pats = pre + [(" + ".join(perm) + f" <= {radius} ** 2").replace("{r}", r)]
+            pats = [q.replace("{r}", r) for q in pats]
+            b = dict(b0)
+            try:
+                ok, _ = M.all_of(pats, b)
+            except Exception:
+                ok = False
+            if ok:
+                if binds is not None:
+                    binds.update(b)
+                return True
+    return False
